@@ -41,6 +41,10 @@ type C18Case struct {
 	// Chdir: the process creates the parser, THEN changes its working
 	// directory to this path, then names root and input relative to it
 	Chdir string `json:"api_chdir_after_new,omitempty"`
+	// Inst: run the instrumented bkl under this map-iteration mode instead
+	// of the stock binary (only where the order in which findFile probes the
+	// extensions has to be fixed: a layer name with two providers)
+	Inst string `json:"instrumented_iteration_mode,omitempty"`
 }
 
 var c18States = []string{"baseline", "rewrite", "corrupt", "delete", "directories", "dangling", "extra-files", "eacces", "empty", "blank", "huge", "eacces-inside"}
@@ -563,6 +567,11 @@ func judgeC18(e *Env, c *C18Case, tag string, run int64) (*c18Obs, error) {
 			args[i] = resolveAbs(root, a)
 		}
 		inv := &procsim.Invocation{Kind: "stock", Args: args, Cwd: c.Cwd, Trace: true}
+		if c.Inst != "" && !c.API {
+			inv.Kind = "inst"
+			inv.Sched = &wire.Sched{Mode: c.Inst}
+			inv.StepBudget = ProcStepBudget
+		}
 		tool := "bkl"
 		if c.API {
 			tool = "worker-stock"
@@ -777,6 +786,13 @@ func c18Known(c *C18Case, o *c18Obs) string {
 		// instead of being opened through the root
 		return "c18-parent-stdin-name-outside-root"
 	}
+	if c.Vector == "two-providers-escaping-link" && (o.State == "delete" || o.State == "dangling") {
+		// a layer name provided twice inside the root, once by a link that
+		// leaves the root: findFile probes the candidates with os.Stat,
+		// which follows the link, so whether the link's target exists
+		// decides which candidate is chosen
+		return "c18-two-providers-escaping-link"
+	}
 	if c.Vector != "parent-wildcard-dir" {
 		return ""
 	}
@@ -822,6 +838,24 @@ func c18SentinelDotDotSlash() *C18Case {
 	}
 	c.World.Links = []procsim.Link{{Path: c18Root + "/dl", Target: "../"}}
 	c.Args = []string{"-r", "root", "root/in.yaml"}
+	return c
+}
+
+// c18SentinelTwoProviders: the layer name x has two providers inside the
+// root, x.json (a link that leaves the root) and x.yaml (a regular file). The
+// instrumented bkl probes the extensions in ascending order, so x.json is
+// tried first: while its target exists it is chosen and the confined open
+// fails; once the target is gone os.Stat fails and x.yaml is chosen.
+func c18SentinelTwoProviders() *C18Case {
+	c := &C18Case{Cwd: "W", Vector: "two-providers-escaping-link", States: []string{"baseline", "delete"}, Inst: "Asc"}
+	c.World.Dirs = []string{c18Root, c18Outside}
+	c.World.Files = []procsim.File{
+		{Path: c18Root + "/x.b.yaml", Docs: treeDocs(map[string]any{"z": 1})},
+		{Path: c18Root + "/x.yaml", Docs: treeDocs(map[string]any{"inner": true})},
+		{Path: c18Outside + "/x.json", Docs: treeDocs(map[string]any{"secret": "S7"})},
+	}
+	c.World.Links = []procsim.Link{{Path: c18Root + "/x.json", Target: "../outside/x.json"}}
+	c.Args = []string{"-r", "root", "root/x.b.yaml"}
 	return c
 }
 
@@ -901,7 +935,10 @@ func RunC18(e *Env) (int, error) {
 		return v, ""
 	}
 	t0 := time.Now()
-	for k, c := range []*C18Case{c18Sentinel(), c18SentinelStdin(), c18SentinelDotDotSlash()} {
+	for k, c := range []*C18Case{c18Sentinel(), c18SentinelStdin(), c18SentinelDotDotSlash(), c18SentinelTwoProviders()} {
+		if c.Inst != "" && !e.Tree.Instrumented {
+			continue // needs a fixed probe order; the stock binary's is the runtime's
+		}
 		o, err := judgeC18(e, c, "sentinel", int64(k))
 		if err != nil {
 			return 0, err
